@@ -113,6 +113,30 @@ NETS = {
         "stations": {"PS-%d" % i: (("cont", 0, 32), 208, 0) for i in range(1, 7)},
         "constraints": [],
     },
+    # N10: single phase - every station at the same phase angle - with a mixed-sign (feeder unbalance) constraint
+    "N10": {
+        "stations": {
+            "PS-A": (("cont", 0, 32), 208, 0),
+            "PS-B": (("fin", F8), 208, 0),
+            "PS-C": (("cont", 0, 32), 240, 0),
+        },
+        "constraints": [
+            ("unb", {"PS-A": 1, "PS-B": -1}, 12.3),
+            ("sum", {"PS-A": 1, "PS-B": 1, "PS-C": 1}, 60.7),
+        ],
+    },
+    # N9: an EVSE WITHOUT a maximum rate (EVSE(id): max = inf) next to a pod whose breaker does not involve it
+    "N9": {
+        "stations": {
+            "PS-A": (("cont", 0, float("inf")), 208, 30),
+            "PS-B": (("cont", 0, 32), 208, -90),
+            "PS-C": (("fin", F8), 208, -90),
+        },
+        "constraints": [
+            ("pod", {"PS-B": 1, "PS-C": 1}, 40.5),
+            ("la", {"PS-A": 1, "PS-C": -1}, 90.3),
+        ],
+    },
     # N6: finite-rate EVSEs only (the sorted algorithms' decisions are then level choices, never bisection results)
     "N6": {
         "stations": {
@@ -334,7 +358,8 @@ def make_algorithm(spec):
         "llf": least_laxity_first,
         "lrpt": largest_remaining_processing_time,
     }[spec.get("sort", "fcfs")]
-    est = SimpleRampdown() if spec.get("est") else None
+    # est: True -> the default rampdown estimator; "ramp0" -> one that never probes upwards (its bound can be exactly 0)
+    est = (SimpleRampdown(up_increment=0) if spec.get("est") == "ramp0" else SimpleRampdown()) if spec.get("est") else None
     if kind == "greedy":
         return SortedSchedulingAlgo(sort, estimate_max_rate=bool(est), max_rate_estimator=est, uninterrupted_charging=bool(spec.get("unint")))
     if kind == "rr":
